@@ -7,6 +7,7 @@ CONSTANTS
   CutRecs = 0
   PreKinds = {"none"}
   Layouts = {"gaps"}
+  LongStrs = {11, 12, 13, 14, 15}
   MultiPre = {"none"}
   MultiLayouts = {"gaps"}
   MultiStrs = {}
